@@ -12,9 +12,13 @@ spec -> code: ConfigProtect_Export enumerates the decision table (location class
               (install / uninstall) with ConfigProtectInstall / ConfigProtectUninstall registered, on a scratch
               root, once with offset "/" (absolute scratch paths, CONFIG_PROTECT passed as the domain does) and
               once with the scratch root as offset (CONFIG_PROTECT* / COLLISION_IGNORE read from its etc/env.d).
-code -> spec: seeded random configurations (nested protect/mask dirs, trailing slashes, several env.d files,
-              directory and file COLLISION_IGNORE entries), random packages of several files, random live files
-              and pending updates, install / replace / uninstall engines.
+code -> spec: seeded random SESSIONS of 1-3 operations on one root in one process, each with its own random
+              configuration (nested protect/mask dirs, trailing slashes, several env.d files rewritten between the
+              operations, directory and file COLLISION_IGNORE entries), random packages of several files, random
+              live files and pending updates (later operations meet what earlier ones left), stray files whose names
+              come from a grammar around ._cfgNNNN_<name> but are no pending updates, install / replace / uninstall
+              engines.  The exported table is run as the second operation on a root whose first operation happened
+              under a different configuration.
 Every run is judged by ConfigProtect_Trace from snapshots of the live filesystem before / after the run and
 the merged contents.
 
@@ -77,20 +81,38 @@ class World:
                 pend.append(dict(n=int(m.group(1)), c=self.read(os.path.join(d, nm))))
         return dict(live=self.read(os.path.join(root, *p)), pending=pend)
 
-    # ---- one engine run ----
-    def run(self, sc):
-        """sc = dict(engine, offset, cfg, envd:[(fname, text)], extra_protect, extra_mask, files:[...]).
-        files[j] = dict(role, p, c, live, pending:[{n,c}])   (role merge: c incoming; unmerge: c recorded)"""
+    def noise_snap(self, root, f):
+        d = os.path.join(root, *f["p"][:-1])
+        return [dict(name=u["name"], c=self.read(os.path.join(d, u["name"]))) for u in f.get("noise", [])]
+
+    # ---- a session: several engine runs, one after the other, on ONE root in this one process ----
+    def session(self, steps):
+        """steps = [sc, ...]; the root (live files, pending updates, strays) persists from step to step, env.d is
+        rewritten before every step (another package / the admin changed it)."""
         self.n += 1
         base = mktmp(f"c21-{self.n}")
-        root, tmp, img = (os.path.join(base, x) for x in ("root", "tmp", "img"))
-        for d in (root, tmp, img):
+        ctx = {k: os.path.join(base, k) for k in ("root", "tmp", "img")}
+        for d in ctx.values():
             os.makedirs(d)
+        os.makedirs(os.path.join(ctx["root"], "etc/env.d"))
+        try:
+            return [self.step(ctx, sc) for sc in steps]
+        finally:
+            shutil.rmtree(base, ignore_errors=True)
+
+    # ---- one engine run ----
+    def step(self, ctx, sc):
+        """sc = dict(engine, offset, cfg, envd:[(fname, text)], extra_protect, extra_mask, files:[...]).
+        files[j] = dict(role, p, c, live, pending:[{n,c}], noise:[{name,c}])
+        (role merge: c incoming; unmerge: c recorded; noise: stray ._cfg-like files beside it)"""
+        root, tmp, img = ctx["root"], ctx["tmp"], ctx["img"]
         sub = sc["offset"] == "sub"
         offset = root if sub else None
         loc = (lambda p: "/" + "/".join(p)) if sub else (lambda p: root + "/" + "/".join(p))
-        # configuration
-        os.makedirs(os.path.join(root, "etc/env.d"))
+        # configuration in force for this step
+        envd = os.path.join(root, "etc/env.d")
+        for old_name in os.listdir(envd):
+            os.unlink(os.path.join(envd, old_name))
         for fname, text in sc["envd"]:
             with open(os.path.join(root, "etc/env.d", fname), "w") as f:
                 f.write(text)
@@ -102,8 +124,11 @@ class World:
         # live files
         for f in sc["files"]:
             d = os.path.join(root, *f["p"][:-1])
-            if f["live"] != NONE or f["pending"]:
+            if f["live"] != NONE or f["pending"] or f.get("noise"):
                 os.makedirs(d, exist_ok=True)
+            for u in f.get("noise", []):
+                with open(os.path.join(d, u["name"]), "w") as fh:
+                    fh.write(body(u["c"]))
             if f["live"] != NONE:
                 with open(os.path.join(d, f["p"][-1]), "w") as fh:
                     fh.write(body(f["live"]))
@@ -114,7 +139,7 @@ class World:
         def package(files):
             ents, dirs = [], set()
             for k, f in enumerate(files):
-                src = os.path.join(img, f"{self.n}-{len(os.listdir(img))}")
+                src = os.path.join(img, f"{len(os.listdir(img))}")
                 with open(src, "w") as fh:
                     fh.write(body(f["c"]))
                 ents.append(self.fs.fsFile(loc(f["p"]), mode=0o644, uid=0, gid=0, mtime=1000000 + k, strict=False,
@@ -149,6 +174,7 @@ class World:
                   self.et.ConfigProtectUninstall()):
             t.register(eng)
         before = [self.snap(root, f["p"]) for f in sc["files"]]
+        nbefore = [self.noise_snap(root, f) for f in sc["files"]]
         raised, merged = "", set()
         try:
             for ph in phases:
@@ -159,8 +185,9 @@ class World:
         except Exception as e:  # an aborted merge is still judged (nothing may have been overwritten)
             raised = f"{type(e).__name__}"
         after = [self.snap(root, f["p"]) for f in sc["files"]]
+        nafter = [self.noise_snap(root, f) for f in sc["files"]]
         files = []
-        for f, b, a in zip(sc["files"], before, after):
+        for f, b, a, nb, na in zip(sc["files"], before, after, nbefore, nafter):
             rec = []
             if f["role"] == "merge":
                 real = "/" + "/".join(f["p"])
@@ -170,8 +197,7 @@ class World:
                 if any(m.startswith(pre) and CFG_RE.match(m[len(pre):]) and CFG_RE.match(m[len(pre):]).group(2) == f["p"][-1]
                        for m in merged):
                     rec.append("cfg")
-            files.append(dict(role=f["role"], p=f["p"], c=f["c"], before=b, after=a, recorded=rec))
-        shutil.rmtree(base, ignore_errors=True)
+            files.append(dict(role=f["role"], p=f["p"], c=f["c"], before=b, after=a, recorded=rec, nb=nb, na=na))
         return dict(engine=kind, offset=sc["offset"], raised=raised, cfg=sc["cfg"], files=files)
 
 
@@ -207,6 +233,22 @@ def render_cfg(r_, cfg, offset, extras=True):
     return files, xp, xm
 
 
+# ---------------- stray files that look like, but are not, pending updates of the file ----------------
+def stray_names(name, other="other.conf"):
+    """Every name <prefix><digits><sep><tail> of a small grammar around ._cfgNNNN_<name>, minus the names that
+    ARE pending updates of `name` (exactly: ._cfg + four digits + _ + name) and the name itself."""
+    out = []
+    for prefix in ("._cfg", ".cfg"):
+        for digits in ("", "0", "12", "0001", "00001", "abcd"):
+            for sep in ("", "_", "x"):
+                for tail in ("", name, other):
+                    nm = prefix + digits + sep + tail
+                    m = CFG_RE.match(nm)
+                    if nm != name and not (m and m.group(2) == name) and nm not in out:
+                        out.append(nm)
+    return out
+
+
 # ---------------- spec -> code: the exported decision table ----------------
 EXPORT_CFG = dict(protect=[["cfg"], ["usr", "share", "conf"]], mask=[["cfg", "masked"]],
                   ignore=[dict(kind="dir", path=["cfg", "ign"])])
@@ -219,7 +261,10 @@ def export_path(cls, k):
 
 
 def export_scenarios(cases, offset, batch):
+    """Sessions of two steps on one root: an unrelated merge under a DIFFERENT configuration first (the root is
+    in use, env.d changes between operations), then a batch of the decision table."""
     out = []
+    nxt = [0]  # the strays are dealt round-robin: every name of the grammar meets a live file
     # (with offset "/" only merges: the unmerge trigger takes its configuration from env.d alone, and the
     #  uninstall engine needs the replace engine's offset handling to see the scratch root at all)
     for role, engine in (("merge", "install"), ("unmerge", "replace")) if offset == "sub" else (("merge", "install"),):
@@ -230,16 +275,32 @@ def export_scenarios(cases, offset, batch):
                 p = export_path(c["cls"], k)
                 if c["cls"] == "ignfile":
                     ign.append(dict(kind="file", path=p))
-                files.append(dict(role=role, p=p, c=c["c"], live=c["live"], pending=c["pending"]))
+                strays = stray_names(p[-1])
+                take = 8 if c["live"] != NONE else 1
+                noise = [dict(name=nm, c="N") for nm in {strays[(nxt[0] + j) % len(strays)] for j in range(take)}]
+                nxt[0] += take
+                files.append(dict(role=role, p=p, c=c["c"], live=c["live"], pending=c["pending"],
+                                  noise=sorted(noise, key=lambda u: u["name"])))
             cfg = dict(protect=EXPORT_CFG["protect"], mask=EXPORT_CFG["mask"], ignore=ign)
             envd, xp, xm = render_cfg(None, cfg, offset)
-            out.append(dict(engine=engine, offset=offset, cfg=cfg, envd=envd, extra_protect=xp, extra_mask=xm, files=files))
+            pcfg = dict(protect=[["opt", "prime"]], mask=[], ignore=[])
+            penvd, pxp, pxm = render_cfg(None, pcfg, offset)
+            prime = dict(engine="install", offset=offset, cfg=pcfg, envd=penvd, extra_protect=pxp, extra_mask=pxm,
+                         files=[dict(role="merge", p=["opt", "prime", "p.conf"], c="A", live="B", pending=[], noise=[])])
+            out.append([prime, dict(engine=engine, offset=offset, cfg=cfg, envd=envd, extra_protect=xp, extra_mask=xm,
+                                    files=files)])
     return out
 
 
 # ---------------- code -> spec: random scenarios ----------------
-def random_scenario(r_):
+def random_session(r_):
+    """1-3 operations on one root; every step draws its own configuration (env.d is rewritten in between) and its
+    own files from the same small pools, so later steps meet the live files / pending updates earlier ones left."""
     offset = r_.choice(["root", "sub", "sub"])
+    return [random_scenario(r_, offset) for _ in range(r_.choice([1, 1, 2, 2, 3]))]
+
+
+def random_scenario(r_, offset):
     dirs = [["cfg"], ["cfg", "app"], ["cfg", "app", "deep"], ["usr", "share", "conf"], ["opt", "x"], ["cfg", "other"],
             ["srv"], ["usr", "share"]]
     protect = r_.sample(dirs, r_.randint(1, 3))
@@ -269,7 +330,11 @@ def random_scenario(r_):
         if role == "merge":
             for n in sorted(r_.sample([0, 1, 2, 3, 5, 17], r_.randint(0, 3))):
                 pend.append(dict(n=n, c=r_.choice(["A", "B", "C", "D"])))
-        files.append(dict(role=role, p=p, c=r_.choice(["A", "A", "B"]), live=live, pending=pend))
+        noise = []
+        if r_.random() < 0.4:
+            cand = stray_names(p[-1], r_.choice(names))
+            noise = [dict(name=nm, c=r_.choice(["A", "B", "N"])) for nm in sorted(set(r_.sample(cand, r_.randint(1, 3))))]
+        files.append(dict(role=role, p=p, c=r_.choice(["A", "A", "B"]), live=live, pending=pend, noise=noise))
     uniq = lambda l: [x for i, x in enumerate(l) if x not in l[:i]]
     cfg = dict(protect=uniq(protect), mask=uniq(mask), ignore=uniq(ignore))
     envd, xp, xm = render_cfg(r_, cfg, offset, extras=all(f["role"] == "merge" for f in files))
@@ -290,12 +355,15 @@ def run(ck):
     w = World()
     scen, events = [], []
 
-    def record(sc):
-        ev = w.run(sc)
-        ev.update(tid=len(scen), i=0)
-        scen.append(sc)
-        events.append(ev)
-        ck.count(len(sc["files"]))
+    history = []  # per event: the steps of its session up to and including it
+
+    def record(steps):
+        for k, (sc, ev) in enumerate(zip(steps, w.session(steps))):
+            ev.update(tid=len(scen), i=0, step=k)
+            scen.append(sc)
+            history.append(steps[: k + 1])
+            events.append(ev)
+            ck.count(len(sc["files"]))
 
     def judge(label, first):
         batch = events[first:]
@@ -309,12 +377,14 @@ def run(ck):
                 ck.nontriv((sc["engine"], sc["offset"], f["role"], f["live"], f["c"], repr(f["pending"]), repr(f["p"][:-1])))
                 continue
             ck.violation(v["clause"], dict(engine=sc["engine"], offset=sc["offset"], role=f["role"], raised=ev["raised"],
-                                           file=f, ignore_configured=bool(sc["cfg"]["ignore"]),
-                                           observed=dict(before=of["before"], after=of["after"], recorded=of["recorded"]),
-                                           scenario=sc))
+                                           file=f, ignore_configured=bool(sc["cfg"]["ignore"]), step=ev["step"],
+                                           observed=dict(before=of["before"], after=of["after"], recorded=of["recorded"],
+                                                         strays_before=of["nb"], strays_after=of["na"]),
+                                           session=history[v["tid"]]))
 
     if ck.replay_case:
-        record(ck.replay_case["detail"]["scenario"])
+        d = ck.replay_case["detail"]
+        record(d["session"] if "session" in d else [d["scenario"]])
         judge("Trace:replay", 0)
         ck.sample(ck.replay_case["detail"]["file"])
         return
@@ -348,15 +418,15 @@ def run(ck):
     cases.sort(key=lambda c: (c["role"], c["cls"], c["live"], repr(c["pending"])))
     first = len(events)
     for offset in ("root", "sub"):
-        for sc in export_scenarios(cases, offset, 24):
-            record(sc)
+        for steps in export_scenarios(cases, offset, 24):
+            record(steps)
     ck.sample(dict(direction="spec->code", case=cases[len(cases) // 2]))
     judge("Trace:decision-table", first)
     # 3. code -> spec
     r_ = rng(21)
     first = len(events)
-    for n in range(ck.pick(100, 400)):
-        record(random_scenario(r_))
+    for n in range(ck.pick(60, 250)):
+        record(random_session(r_))
         if n == 0:
             ck.sample(dict(direction="code->spec", scenario={k: scen[-1][k] for k in ("engine", "offset", "cfg", "envd")}))
         if len(events) - first >= 600:
